@@ -12,6 +12,13 @@
 #include <fstream>
 #include <iostream>
 
+#ifdef VERIF_COV
+extern "C" void __gcov_dump(void);   // children leave through _exit: write the counters first (bin/covreport)
+#define COV_DUMP() __gcov_dump()
+#else
+#define COV_DUMP() ((void)0)
+#endif
+
 namespace vm {
 static std::vector<Driver> &drivers() { static std::vector<Driver> d; return d; }
 void register_driver(const Driver &d) { drivers().push_back(d); }
@@ -83,6 +90,7 @@ static ChildOut run_child(const Driver *d, const std::string &tier, uint64_t see
         int rfd = open((dir + "/result").c_str(), O_WRONLY | O_CREAT | O_TRUNC, 0644);
         ssize_t w = write(rfd, r.data(), r.size()); (void)w; close(rfd);
         fflush(nullptr);
+        COV_DUMP();
         _exit(0);
     }
     double deadline = t0 + timeout_s;
